@@ -11,8 +11,8 @@ check('C21', title='Two fix8 sessions deliver every application message across f
            'the depth bound is followed by a completion phase (reconnect if down, drain, one application message each way, drain). Checked: no session shuts down while the link is up; the exchange terminates; every '
            'application message whose send returned true reached the peer\'s application at least once; first deliveries are in send order; every re-delivery carries PossDupFlag=Y. Two configurations: library defaults, and '
            'ignore_logon_sequence_check switched on through a real SessionConfig, so that the search gets past the logon and exercises resend request / replay / gap fill between two fix8 ends.',
-      level_note='Bounded by history depth (6 quick / 8 thorough, capped by the deadline); message-granular link; crashes only between events (C27 owns crashes inside a store operation); sends only while the link is up.',
+      level_note='Bounded by history depth (6 quick / 12 thorough, capped by the deadline); message-granular link; crashes only between events (C27 owns crashes inside a store operation); sends only while the link is up.',
       rule='history over {sendI, sendA, deliverI>A, deliverA>I, drop, reconnect, restartI, restartA}; distinct = new canonical state (both sessions\' state and numbers, both stores incl. control record, both queues, sent counts, delivery logs)',
       assumptions=['sim runtime: virtual clock, threads created by fix8 are registered but never run; inbound bytes enter through Session::process as the reader thread would hand them over',
                    'FIX42UTEST schema; application messages are NewOrderSingle with unique ClOrdIDs, deliveries observed at the generated router'],
-      parts=[dict(name='bfs', harness='session_pair', variant='san', quick=dict(args=['depth=6'], deadline=100), thorough=dict(args=['depth=10'], deadline=1500))])
+      parts=[dict(name='bfs', harness='session_pair', variant='san', quick=dict(args=['depth=6'], deadline=100), thorough=dict(args=['depth=12'], deadline=1500))])
